@@ -47,6 +47,19 @@ fn check_u(v: u64, prev: Option<u64>, rep: &mut Report) {
         (Err(_), true) => viol(rep, "U53", "json-deserialize", "rejects-in-range", lit.clone()),
         _ => {}
     }
+    // the same literal read as the other type: a non-negative literal above i64::MAX reaches I54 through serde's
+    // unsigned path, and within the struct a field sees it the same way
+    let di: Result<I54, _> = serde_json::from_str(&lit);
+    let dw: Result<std::collections::BTreeMap<String, Vec<I54>>, _> = serde_json::from_str(&format!("{{\"i\":[0,{lit}]}}"));
+    rep.count("json_literals_parsed_as_the_other_type", 2);
+    for (what, got) in [("json-deserialize-unsigned-literal", di.map(i64::from)), ("json-deserialize-field-unsigned-literal", dw.map(|w| i64::from(w["i"][1])))] {
+        match (got, expect_ok) {
+            (Ok(g), true) if g as i128 != v as i128 => viol(rep, "I54", what, "value-changed", format!("{lit} -> {g}")),
+            (Ok(g), false) => viol(rep, "I54", what, "accepts-out-of-range", format!("{lit} -> {g}")),
+            (Err(_), true) => viol(rep, "I54", what, "rejects-in-range", lit.clone()),
+            _ => {}
+        }
+    }
     if let Ok(x) = r {
         if u64::from(x) != v {
             viol(rep, "U53", "into-u64", "value-changed", lit.clone());
@@ -123,6 +136,18 @@ fn check_i(v: i64, prev: Option<i64>, rep: &mut Report) {
         (Ok(_), false) => viol(rep, "I54", "json-deserialize", "accepts-out-of-range", lit.clone()),
         (Err(_), true) => viol(rep, "I54", "json-deserialize", "rejects-in-range", lit.clone()),
         _ => {}
+    }
+    let du: Result<U53, _> = serde_json::from_str(&lit);
+    let dw: Result<std::collections::BTreeMap<String, Vec<U53>>, _> = serde_json::from_str(&format!("{{\"u\":[0,{lit}]}}"));
+    rep.count("json_literals_parsed_as_the_other_type", 2);
+    let expect_u = v >= 0 && v <= SAFE as i64;
+    for (what, got) in [("json-deserialize-signed-literal", du.map(u64::from)), ("json-deserialize-field-signed-literal", dw.map(|w| u64::from(w["u"][1])))] {
+        match (got, expect_u) {
+            (Ok(g), true) if g as i128 != v as i128 => viol(rep, "U53", what, "value-changed", format!("{lit} -> {g}")),
+            (Ok(g), false) => viol(rep, "U53", what, "accepts-out-of-range", format!("{lit} -> {g}")),
+            (Err(_), true) => viol(rep, "U53", what, "rejects-in-range", lit.clone()),
+            _ => {}
+        }
     }
     if let Ok(x) = r {
         if i64::from(x) != v {
@@ -315,7 +340,7 @@ pub fn run(ctx: &Ctx) -> (Spec, Report) {
     let spec = Spec {
         level: "exploration",
         rule: format!(
-            "every u64/i64 within 2^12 of 0, ±2^k (k=0..63), ±(2^53-1), the 64-bit extremes — exhaustive — plus {draws} seeded draws stratified by bit length; each value goes through TryFrom, serde_json literal parsing, conversion back, JSON and f64 round trips, narrowing, ordering against the previous value, and mixed comparisons (==, <, >, <=, >=, partial_cmp) of nine in-range anchors with the raw value whether it is in range or not; a cell is distinct by (type, operation, sign, bit length, expected accept/reject)"
+            "every u64/i64 within 2^12 of 0, ±2^k (k=0..63), ±(2^53-1), the 64-bit extremes — exhaustive — plus {draws} seeded draws stratified by bit length; each value goes through TryFrom, serde_json literal parsing (as its own type, as the other type - so that unsigned literals above i64::MAX reach I54 - and nested in a map of lists), conversion back, JSON and f64 round trips, narrowing, ordering against the previous value, and mixed comparisons (==, <, >, <=, >=, partial_cmp) of nine in-range anchors with the raw value whether it is in range or not; a cell is distinct by (type, operation, sign, bit length, expected accept/reject)"
         ),
         assumptions: vec![
             "the typeshare crate is linked from VERIF_REPO/lib with release semantics (no overflow checks)".into(),
